@@ -39,8 +39,12 @@ def method_call(t, name=None):
     return None
 
 
-def strip_wrappers(t, names=ELEMENT_PRESERVING):
+def strip_wrappers(t, names=ELEMENT_PRESERVING, slices=True):
     while True:
+        # a slice of a sequence holds elements of the sequence
+        if slices and isinstance(t, tuple) and t and t[0] == "sub" and isinstance(t[2], tuple) and t[2] and t[2][0] == "slice":
+            t = t[1]
+            continue
         c = is_call(t, *names)
         if c and len(c[0]) >= 1 and t[2][0] == "builtin":
             t = c[0][0]
